@@ -66,8 +66,16 @@ fn render(line: &Value, r: &mut rand::rngs::StdRng) -> (String, [f64; 7], [f64; 
     let mut t = String::new();
     if layout == "comments" { t.push_str("#\n# generated variant\n#\n"); }
     t.push_str(&format!("opw_kinematics_geometric_parameters:{}\n", cm("metres")));
-    for i in 0..7 { t.push_str(&format!("{}{}: {}{}\n", ind, names[i], toks[i], if i == 2 { cm("offset") } else { String::new() })); }
-    if line["dof_place"] == "nested" { t.push_str(&format!("{}dof: {}{}\n", ind, line["dof_value"], cm("degrees of freedom"))); }
+    // (the entries of a YAML mapping come in any order: the documented one, the reverse, or shuffled - the nested DOF entry
+    //  anywhere among them)
+    let mut block: Vec<String> = (0..7).map(|i| format!("{}{}: {}{}\n", ind, names[i], toks[i], if i == 2 { cm("offset") } else { String::new() })).collect();
+    if line["dof_place"] == "nested" { block.push(format!("{}dof: {}{}\n", ind, line["dof_value"], cm("degrees of freedom"))); }
+    match r.gen_range(0..3) {
+        0 => {}
+        1 => block.reverse(),
+        _ => { for i in (1..block.len()).rev() { let j = r.gen_range(0..=i); block.swap(i, j); } }
+    }
+    for l in &block { t.push_str(l); }
     if noff > 0 { t.push_str(&format!("opw_kinematics_joint_offsets: [{}]{}\n", off_toks.join(", "), cm("radians or deg()"))); }
     if nsign > 0 { t.push_str(&format!("opw_kinematics_joint_sign_corrections: [{}]\n", sign_toks.join(if layout == "plain" { ", " } else { "," }))); }
     if line["dof_place"] == "top" { t.push_str(&format!("dof: {}\n", line["dof_value"])); }
